@@ -124,20 +124,25 @@ def run(chk):
       def body(c, x):
         c1 = (c * 31 + x.sum()) % 1009
         return c1, x + c1
-      for unroll in ((1,), (2,)) if len(axis) > 1 or thorough else ((1,),):
+      # the same axes written with negative indices (all of them, or every second one): a rendering, not another case
+      rank = len(shape)
+      renderings = [axis, tuple(a - rank for a in axis), tuple(a - rank if i % 2 else a for i, a in enumerate(axis))]
+      if len(axis) == 1:
+        renderings = [axis, (axis[0] - rank,), axis[0], axis[0] - rank]      # a bare int is accepted as well
+      for unroll, ax in [(u, r) for r in dict.fromkeys(renderings) for u in (((1,), (2,)) if len(axis) > 1 or thorough else ((1,),))]:
         try:
-          c, ys = jax_utils.scan_in_dim(body, jnp.int32(1), jnp.asarray(xs), axis=axis, unroll=unroll, keepdims=keep)
+          c, ys = jax_utils.scan_in_dim(body, jnp.int32(1), jnp.asarray(xs), axis=ax, unroll=unroll, keepdims=keep)
         except Exception as e:
           chk.violation(key, f'scan_in_dim raised {type(e).__name__}: {e}', case)
           continue
         n += 1
-        chk.count((key, unroll))
+        chk.count((key, unroll, ax))
         exp = np.zeros(shape, np.int64)
         for ix, v in case['ys']:
           exp[tuple(ix)] = v
         ys = np.asarray(ys)
         if int(c) != case['final'] or ys.shape != shape or not np.array_equal(ys, exp):
-          chk.violation(key, f'scan_in_dim(axis={axis}, keepdims={keep}, unroll={unroll}) on shape {shape}: final carry {int(c)} '
+          chk.violation(key, f'scan_in_dim(axis={ax}, keepdims={keep}, unroll={unroll}) on shape {shape}: final carry {int(c)} '
                              f'(nested-loop reference {case["final"]}), ys shape {ys.shape}, ys equal: '
                              f'{ys.shape == shape and np.array_equal(ys, exp)}', {k: case[k] for k in ('axis', 'keep', 'dims', 'final')})
     chk.sample({'spec': 'HostBatch', 'scan_case': {k: res['exports'][0][k] for k in ('axis', 'keep', 'dims', 'final')}}, limit=6)
